@@ -842,6 +842,10 @@ def c19(tier='quick', seed=0):
             tokens.append(tok)
     leaves = ['role:admin', 'role:member', 'rule:helper', 'rule:undefined_rule', 'project_id:%(project_id)s', 'system:all',
               'system_scope:all', 'user_id:%(user_id)s', 'is_admin:True', 'domain_id:d1', 'project_id:%(target.project.id)s', '@', '!']
+    rng_req = random.Random(seed + 1)
+    fixed19 = [(tg, ti, adm, ar) for tg in (None, {}, {'target': {}}, {'target': {'secret': {}}, 'other': {}},
+                                              {'target': {'project': {'id': 'p1'}}, 'project_id': 'zz', 'user_id': 'other'})
+               for ti in range(3) for adm in (False, True) for ar in (None, 'svc:user')][:60]
     for it in range(120 if tier == 'quick' else 1200):
         pol = {'helper': rng.choice(['role:admin', 'role:member or role:reader', '!']),
                'no_colon_name': 'role:admin'}
@@ -862,9 +866,19 @@ def c19(tier='quick', seed=0):
                              {'user_id': 'u1', 'a': {}, 'project_id': 'p1', 'target': {'project': {'id': 'zz'}}},
                              {}, {'target': {}}, {'target': {'secret': {}}, 'other': {}}])
         apply_rule = rng.choice([None, None, 'svc:op0', 'helper'])
-        if 'default' in pol and rng.random() < 0.3:
+        # the first cases are fixed (independent of the seed): the policy reads every attribute the checker derives, the
+        # target file is absent / empty / flattens to nothing / nested, every token kind, is_admin on and off
+        if it < len(fixed19):
+            target, tok_i, is_admin, apply_rule = fixed19[it]
+            tok = tokens[tok_i % len(tokens)]
+            pol = {'helper': 'role:admin', 'no_colon_name': 'role:admin', 'default': 'role:reader',
+                   'svc:user': 'user_id:%(user_id)s', 'svc:proj': 'project_id:%(project_id)s', 'svc:adm': 'is_admin:True',
+                   'svc:notadm': 'not is_admin:True', 'svc:sys': 'system_scope:all or system:all', 'svc:tproj': 'project_id:%(target.project.id)s',
+                   'svc:alias': 'rule:helper', 'svc-ext:z': 'role:member', 'svc:z': 'role:member', 'Svc:a': '@'}
+        if 'default' in pol and rng_req.random() < 0.3:
             # a requested name the file does not define is answered by the file's default rule, as the library does
-            apply_rule = rng.choice(['svc:not_in_file', 'nope'])
+            # (drawn from a generator of its own: the main stream of cases stays what it was)
+            apply_rule = rng_req.choice(['svc:not_in_file', 'nope'])
         sb = Sandbox()
         try:
             sb.write('pol.json', pol, 'json')
